@@ -137,6 +137,20 @@ CHECKS = {
         technique="TLA+ acceptance semantics; TLC-generated conforming and mutated inputs replayed into typed builders",
         engine="tlc+vh",
     ),
+    "C10": dict(
+        category="model_checking",
+        text="The decoder machine of DagCbor.tla with small MaxDepth constants predicts, for every explored input, accept / "
+             "reject including depth_exceeded, and Selector!Compiles predicts which selector trees compile; TLC also "
+             "generates the trees with extreme integers and every local malformation. Around these, the harness measures "
+             "what TLA+ cannot state: under every decoder configuration no panic, a result within the deadline, nesting "
+             "reached <= MaxDepth (counting assembler), size hints <= preallocation cap, allocation <= a fixed multiple of "
+             "budget + input length; the other decoders and the walk of compiled selectors are checked for totality.",
+        design_ref="DESIGN.md section 4, C10",
+        note="Verdict/depth conformance is model-based; no-panic / terminates / allocation are observations (recover, "
+             "watchdog, MemStats) with constants fixed in advance; one known finding (ExploreRange makeslice panic).",
+        technique="TLA+ decoder machine and selector compile rules generating inputs and verdicts; totality and resource bounds measured on every input x configuration",
+        engine="tlc+vh",
+    ),
     "C11": dict(
         category="model_checking",
         text="Immutable.tla has finished nodes with frozen values and every library operation that takes a finished node or "
